@@ -364,8 +364,8 @@ def classify(src, viol, findings):
 def run(chk):
     quick = chk.tier == "quick"
     rng = chk.rng
-    if os.path.exists(KF_FALLBACK):
-        # TEMPORARY until the lead merges build/kf-C11.json: findings proposed there that known_findings.json does not list yet
+    if os.environ.get("VERIF_KF_DEV") == "1" and os.path.exists(KF_FALLBACK):
+        # development only (VERIF_KF_DEV=1): findings proposed in build/kf-C11.json that known_findings.json does not list yet
         listed = {f["id"] for f in chk.findings}
         chk.findings = chk.findings + [f for f in json.load(open(KF_FALLBACK)) if f.get("property") == "C11" and f["id"] not in listed]
     if os.environ.get("VERIF_KF_C11"):
@@ -462,12 +462,12 @@ def run(chk):
     cases = []
     for name, s in corpus:
         cases.append(("corpus", s))
-    for _ in range(1500 if quick else 15000):
+    for _ in range(1000 if quick else 15000):
         s = rng.choice(corpus)[1]
         for _ in range(rng.choice([1, 1, 2, 3])):
             s = mutate(rng, s)
         cases.append(("mutated", s))
-    for _ in range(1000 if quick else 8000):
+    for _ in range(700 if quick else 8000):
         cases.append(("random-utf8", random_utf8(rng, rng.choice([1, 2, 3, 5, 8, 13, 40, 200]))))
     for _, s in small_files[:(3 if quick else len(small_files))]:
         for i in range(len(s) + 1):
